@@ -151,5 +151,14 @@ CLAIMED = {
         'compared with an independent bit-level reading.',
    note='Trusted: z3; specs/tlbschema.py and specs/tlbspec.py. Field-less constructors the library represents by None (account_none, fsm_none) and two '
         'attribute aliases (seqno) are accepted as such. McStateExtra/BlockExtra/AccountBlock dictionaries are outside the claim; one Bool is symbolic per instance.'),
+ 'C11': dict(
+   text='Bounded symbolic execution of the real check_proof, check_block_header_proof and check_account_proof (through Cell.from_boc, ShardStateUnsplit.deserialize '
+        'and the augmented dictionary parser) with SHA-256 as an injective function: for 4 trees (<= 6 cells, ALL contents symbolic) and EVERY antichain of pruned '
+        'sub-trees the proof built by pruning is accepted; rejected are: any other 256-bit expected hash, any change (bits, length, added/dropped/swapped '
+        'reference) of an unpruned cell even with an attacker-chosen stored hash, any substituted pruned hash, non-proof roots; 6 trees with inner Merkle '
+        'proof/update cells (level-2 pruned branches); shard states with 1..3 accounts under a block with a Merkle update: genuine account state accepted, a '
+        'different one, a pruned-branch carrier of the committed hash, another block hash and a tampered state rejected.',
+   note='Trusted: z3; the collision-freeness axiom (instantiated pairwise per path); specs/cellspec.py, dictspec.py, bocspec.py. check_shard_proof and trees of '
+        'more than 6 cells are outside the claim.'),
 }
 NOT_APPLICABLE = {}
